@@ -1,6 +1,7 @@
 package main
 
 import (
+	"bytes"
 	"encoding/hex"
 	"fmt"
 
@@ -25,9 +26,14 @@ func streamWirePrimitives(c *fw.Ctx, n int) {
 	r := c.Rng.Fork()
 	for i := 0; i < n; i++ {
 		v := r.U64Interesting()
-		buf := make([]byte, 10)
+		buf := bytes.Repeat([]byte{0xA5}, 10+r.Intn(4))
 		k := csproto.EncodeVarint(buf, v)
 		enc := buf[:k]
+		if !bytes.Equal(buf[k:], bytes.Repeat([]byte{0xA5}, len(buf)-k)) {
+			c.Violate(fw.Violation{Stream: "wire", Signature: "EncodeVarint/overrun", What: "EncodeVarint wrote beyond the bytes it reports as written",
+				Input: v, Expected: fmt.Sprintf("%d bytes written, the rest of the destination untouched", k), Got: hexs(buf)})
+		}
+		buf = append(buf[:0:0], buf[:10]...)
 		c.Model("wire", fmt.Sprintf("W ev %d", v), hexs(enc))
 		c.Model("wire", fmt.Sprintf("W szv %d", v), fmt.Sprint(csproto.SizeOfVarint(v)))
 		c.Model("wire", fmt.Sprintf("W szz %d", int64(v)), fmt.Sprint(csproto.SizeOfZigZag(v)))
@@ -144,8 +150,24 @@ func roundTripField(c *fw.Ctx, stream string, k kind, tag int, v wval, fast bool
 	}
 	desc := fmt.Sprintf("%s tag=%d fast=%v %s", k.name, tag, fast, op.String())
 	c.Journal("C01 " + desc)
-	req, reply, panicked, buf, off := runEncProgram(predicted, []encOp{op})
+	// mostly a buffer of exactly the predicted size; sometimes a few bytes more (a caller's trailer, the next
+	// record of a batch): those bytes are not the encoder's to write
+	slack := 0
+	if c.Rng.Chance(1, 4) {
+		slack = 1 + c.Rng.Intn(6)
+	}
+	req, reply, panicked, buf, off := runEncProgram(predicted+slack, []encOp{op})
 	c.Model(stream, req, reply)
+	if !panicked && off == predicted && slack > 0 {
+		for _, x := range buf[predicted:] {
+			if x != buf[len(buf)-1] || (x != 0x00 && x != 0xAA && x != 0xFF) {
+				c.Violate(fw.Violation{Stream: stream, Signature: "encode/" + k.name + "/overrun", What: "the encoder wrote beyond the bytes the size helpers predicted (bytes after the field were modified)",
+					Input: desc, Expected: fmt.Sprintf("%d bytes written, %d bytes of slack untouched", predicted, slack), Got: trunc(hexs(buf), 300)})
+				break
+			}
+		}
+	}
+	buf = buf[:len(buf)-slack]
 	nontrivial := predicted > 2
 	outcome := "ok"
 	if panicked {
